@@ -140,23 +140,28 @@ Print Assumptions C19_lru_spec.
 
 (* TextFileSource: a call whose stat sees file state w1 and whose read sees w2 >= w1 (an edit in between is
    allowed) answers exactly as for ONE file state wr, w1 <= wr <= w2, and leaves a consistent snapshot *)
-Theorem C19_text_call_spec : forall contents bad ce c l o w1 w2 l1 o1 l2 o2,
-  t_inv contents bad o w1 -> w1 <= w2 -> tc l = c -> stat_faulted c = false ->
-  t_stat ce l o w1 = (l1, o1) -> t_read contents bad ce l1 o1 w2 = (l2, o2) ->
-  (exists wr, w1 <= wr /\ wr <= w2 /\
-              tres l2 = at_world c w2 (if bad wr then [8] else text_answer c (contents wr))) /\
-  t_inv contents bad o2 w2.
+Theorem C19_text_call_spec : forall contents bad ce c l o w l1 o1 l2 o2,
+  t_inv contents bad o -> tc l = c -> stat_faulted c = false ->
+  t_stat ce l o w = (l1, o1) -> t_read contents bad ce l1 o1 w = (l2, o2) ->
+  tres l2 = at_world c w (if bad w then [8] else text_answer c (contents w)) /\ t_inv contents bad o2.
 Proof. exact text_call_spec. Qed.
 Print Assumptions C19_text_call_spec.
 
-(* a call whose os.stat FAILS transiently while the file is readable (the file is being replaced) does not
-   fail: the error becomes a version string different from that of every file state, the file is re-read
-   and the call answers for the state it read -- unless the previous reload was itself triggered by such a
-   failure (every failure yields the same string) *)
+(* the path is switched between the call's stat and its read: the call re-reads and answers for the file
+   state it read *)
+Theorem C19_text_call_edit_between : forall contents bad ce c l o w1 w2 l1 o1 l2 o2,
+  tc l = c -> stat_faulted c = false -> fver o <> Some (S w1) ->
+  t_stat ce l o w1 = (l1, o1) -> t_read contents bad ce l1 o1 w2 = (l2, o2) ->
+  tres l2 = at_world c w2 (if bad w2 then [8] else text_answer c (contents w2)).
+Proof. exact text_call_edit_between. Qed.
+Print Assumptions C19_text_call_edit_between.
+
+(* a call whose os.stat FAILS transiently while the file is readable does not fail: it re-reads -- unless the
+   previous reload was itself triggered by such a failure (every failure yields the same string) *)
 Theorem C19_text_call_stat_fault : forall contents bad c l o w1 w2 l1 o1 l2 o2,
-  w1 <= w2 -> tc l = c -> stat_faulted c = true -> fver o <> Some 0 ->
+  tc l = c -> stat_faulted c = true -> fver o <> Some 0 ->
   t_stat true l o w1 = (l1, o1) -> t_read contents bad true l1 o1 w2 = (l2, o2) ->
-  tres l2 = at_world c w2 (if bad w2 then [8] else text_answer c (contents w2)) /\ t_inv contents bad o2 w2.
+  tres l2 = at_world c w2 (if bad w2 then [8] else text_answer c (contents w2)) /\ t_inv contents bad o2.
 Proof. exact text_call_stat_fault. Qed.
 Print Assumptions C19_text_call_stat_fault.
 
@@ -272,18 +277,27 @@ Proof. vm_compute. split; reflexivity. Qed.
 (* TextFileSource.get_data without `with self._lock`: the other thread's reload clears the snapshot
    between this thread's reload and its look-up *)
 Definition nolock_text_calls := [[TGet 1]; [TGet 1]].
-Definition nolock_text_sch : list (choice unit) := [T 0; T 0; T 0; Ev tt; T 1; T 1; T 0; T 1; T 1].
+Definition nolock_text_sch : list (choice nat) := [T 0; T 0; T 0; Ev 1; T 1; T 1; T 0; T 1; T 1].
 Theorem C19_refuted_text_without_lock :
   let o := results _ _ _ _ _ (t_run [[(1, 10)]; [(1, 11)]] [] true false (t_init nolock_text_calls) nolock_text_sch) in
   o = [[ [0] ]; [ [1; 11] ]] /\
   t_search [[(1, 10)]; [(1, 11)]] [] true nolock_text_calls nolock_text_sch o = false.
 Proof. vm_compute. split; reflexivity. Qed.
 
+(* a release switched to a broken state and rolled back (state 0 -> state 1, unparsable -> state 0 again with
+   the SAME version): the failed reload forgets the remembered version, so the call after the roll-back re-reads;
+   keeping the version (seed C19-r9s3) would serve the cleared snapshot for good *)
+Example C19_rollback_after_failed_reload :
+  let c := Text [[(1, 10)]; []] [false; true] true [[TGet 1; TGet 1; TGet 1]] [[ []; []; [] ]]
+                [T 0; T 0; T 0; T 0; Ev 1; T 0; T 0; T 0; T 0; Ev 0; T 0; T 0; T 0; T 0] in
+  valid c /\ run_model c = [[ [1; 10]; [8]; [1; 10] ]].
+Proof. vm_compute. repeat split; reflexivity. Qed.
+
 (* non-vacuity: concrete valid cases *)
 Example C19_nonvacuous_text :
   let c := Text [[(1, 10); (2, 20)]; [(1, 11)]] [] true [[TGet 1; TGet 2]; [TFind 20]; [TGetAt 1 1]]
                 [[ []; [] ]; [ [] ]; [ [(0, 1); (1, 0)] ]]
-                [T 0; T 1; T 0; Ev tt; T 0; T 0; T 1; T 1; T 1; T 1; T 0; T 0; T 0; T 0; T 2; T 2; T 2; T 2] in
+                [T 0; T 1; T 0; Ev 1; T 0; T 0; T 1; T 1; T 1; T 1; T 0; T 0; T 0; T 0; T 2; T 2; T 2; T 2] in
   valid c /\ run_model c = [[ [1; 11]; [0] ]; [ [0] ]; [ [1; 11] ]].
 Proof. vm_compute. repeat split; reflexivity. Qed.
 
